@@ -163,9 +163,17 @@ def read_request(S):
             return {"ok": b"m", "missing": None, "not_utf8": b"\xff"}[method_mode]
         if key == REQUEST_VERSION_KEY:
             return {"ok": REQUEST_VERSION, "missing": None, "wrong": b"0"}[version_mode]
+        if key == SHM_OFFSET_KEY:
+            return b"4096" if pointer_cell["is"] else None
+        if key == SHM_LENGTH_KEY:
+            return b"512" if pointer_cell["is"] else None
         return None
 
+    pointer_cell = {"is": False}
     H["KVMeta.get"] = md_get
+    H["KVMeta.__getitem__"] = lambda S, m, key: md_get(S, m, key)
+    H["KVMeta.__bool__"] = lambda S, m: True
+    H["Segment.free"] = lambda S, seg, off: S.event("freed_directly", seg, off)
     n_fields = S.choose(3)
     fields = [SObj(None, kind="Field", name=f"p{i}") for i in range(n_fields)]
 
@@ -177,10 +185,11 @@ def read_request(S):
     H["Schema.__iter__"] = lambda S, s: list(fields)
     wire_batch = mk_batch("wire")
     H["Reader.read_next_batch_with_custom_metadata"] = lambda S, r: (wire_batch, md)
-    H["_drain_stream"] = lambda S, r: S.event("drained")
+    H["_drain_stream"] = lambda S, r, *a: S.event("drained")
     H["_record_input"] = lambda S, *a, **k: None
     H["fmt_schema"] = lambda S, s: "schema"
     is_pointer = S.choose(2) == 1
+    pointer_cell["is"] = is_pointer
     H["is_shm_pointer_batch"] = lambda S, b, cm: is_pointer
     # segment: a pre-attached (static transport) one, or one attached here for this request, or none
     seg_mode = ["static", "attach_ok", "attach_none", "no_shm"][S.choose(4)]
@@ -241,6 +250,13 @@ def read_request(S):
         S.oblige("O1.region_released_only_after_the_values_were_copied_out", before(last_read, pos(names, "released")), kind="trace", witness=wit)
         if out.returned:
             S.oblige("O1.kwargs_come_from_the_resolved_batch", all(e[1] is resolved_batch for e in S.events("as_py")) and len(S.events("as_py")) == n_fields, kind="trace")
+    # a pointer request refused on its envelope is never resolved: with the transport's own segment at hand its region
+    # must be given back directly, exactly once (a resolved one is released through its release function instead)
+    direct = S.events("freed_directly")
+    if is_pointer and seg_mode == "static" and out.raised and "resolve_called" not in names:
+        S.oblige("O1.refused_pointer_request_frees_its_region", len(direct) == 1 and direct[0][1] is static_seg and direct[0][2] == 4096, kind="trace", witness=wit)
+    else:
+        S.oblige("O1.no_region_is_freed_behind_the_release_functions_back", not direct, kind="trace", witness=wit)
     attached = "attached" in names and seg_mode == "attach_ok"
     closes = S.events("segment_closed")
     if attached:
@@ -303,7 +319,7 @@ def read_unary_response(S):
 
     H["_read_batch_with_log_check"] = read_check
 
-    def drain(S, r):
+    def drain(S, r, *a):
         S.event("drained")
         if S.choose(2) == 1:
             raise_(pa.ArrowInvalid, "garbage after the response")
@@ -408,6 +424,10 @@ def serve_stream(S):
     failed = [e[1] for e in S.events("step_failed")]
     wit = ("after " + failed[0] + " failed") if failed else ("cancel" if "input_cancel" in names else ("eos" if "input_eos" in names else ("reader_failed" if "reader_failed" in names else "finished")))
     S.inputs["bad_input"] = "coerce" in failed
+    # input batches thrown away unread (the drain after an init error on a header-less stream, and the drain at the end
+    # of every stream) may be pointer batches: the drain must be given this call's segment so it can free their regions
+    for e in S.events("drained"):
+        S.oblige("O3.every_drain_of_client_input_gets_the_calls_segment", e[1] is c["shm"], kind="trace", witness=wit)
     if "stream_open" not in names:
         return
     # every region resolved in this call has been released when the call ends, whatever the outcome
@@ -799,3 +819,109 @@ def reader_format(S):
         if is_dict:
             S.oblige("O7.schema_message_rebuilt_from_the_pointers_schema", any(e[1] is schema for e in S.events("schema_message_built")), kind="trace")
     S.canary("O7.canary.always_reads_raw", SBool(z3.BoolVal(bool(opened) and opened[0][1] is buf)))
+
+
+
+# ------------------------------------------------------------------------------------------
+# O8  _drain_stream(reader, shm): every discarded pointer batch has its region freed (unbounded stream, loop invariant)
+# ------------------------------------------------------------------------------------------
+
+
+def replay_drain(inputs, ob):
+    """Real segment and real IPC stream: k pointer batches and plain batches drained; no region may stay allocated."""
+    import contextlib
+    from io import BytesIO
+
+    from vgi_rpc.shm import ShmSegment, make_shm_pointer_batch
+    from vgi_rpc.utils import IpcValidation, ValidatedReader
+
+    schema = pa.schema([("a", pa.int64())])
+    seg = ShmSegment.create(1 << 20)
+    try:
+        buf = BytesIO()
+        with pa.ipc.new_stream(buf, schema) as w:
+            for i in range(3):
+                off, ln = seg.allocate_and_write(pa.RecordBatch.from_pydict({"a": list(range(100 + i))}, schema=schema))  # type: ignore[misc]
+                ptr, cm = make_shm_pointer_batch(schema, off, ln)
+                w.write_batch(ptr, custom_metadata=cm)
+                w.write_batch(pa.RecordBatch.from_pydict({"a": [i]}, schema=schema))
+        before = seg.allocator.num_allocs
+        buf.seek(0)
+        wire._drain_stream(ValidatedReader(pa.ipc.open_stream(buf), IpcValidation.NONE), seg)
+        after = seg.allocator.num_allocs
+        return ReplayResult(after != 0, f"stream of 3 pointer + 3 inline batches drained with the segment: live regions {before} -> {after}")
+    finally:
+        with contextlib.suppress(Exception):
+            seg.close()
+        with contextlib.suppress(Exception):
+            seg.unlink()
+
+
+@unit("C29.O8 _drain_stream frees the region of every pointer batch it discards", targets=["vgi_rpc/rpc/_wire.py::_drain_stream"], replay=replay_drain, min_obligations=6)
+def drain_unit(S):
+    with_seg = S.choose(2) == 1
+    seg = SObj(None, kind="Segment") if with_seg else None
+    n = S.int("stream_length")
+    S.assume(n >= 0)
+    IS_PTR = z3.Function("drained_batch_is_pointer", z3.IntSort(), z3.BoolSort())
+    OFF = z3.Function("drained_batch_offset", z3.IntSort(), z3.IntSort())
+    G = S.ghost
+    G["pos"] = SInt(z3.IntVal(0))
+    G["n_ptr"] = SInt(z3.IntVal(0))
+    G["n_freed"] = SInt(z3.IntVal(0))
+
+    def nxt(S, r):
+        p = G["pos"]
+        if S.fork(p >= n):
+            raise_(StopIteration)
+        G["pos"] = p + 1
+        return SObj(None, kind="Batch", idx=p)
+
+    def nxt_md(S, r):
+        b = nxt(S, r)
+        return (b, SObj(None, kind="KVMeta", idx=b.fields["idx"]))
+
+    H = S.handlers
+    H["Reader.read_next_batch"] = nxt
+    H["Reader.read_next_batch_with_custom_metadata"] = nxt_md
+
+    def is_ptr(S, b, cm):
+        r = S.fork(SBool(IS_PTR(b.fields["idx"].t)))
+        if r:
+            G["n_ptr"] = G["n_ptr"] + 1
+        return r
+
+    H["is_shm_pointer_batch"] = is_ptr
+    H["KVMeta.__getitem__"] = lambda S, m, key: SInt(OFF(m.fields["idx"].t)) if key == SHM_OFFSET_KEY else None
+    H["KVMeta.get"] = lambda S, m, key, default=None: SInt(OFF(m.fields["idx"].t)) if key == SHM_OFFSET_KEY else default
+
+    def free(S, sg, off):
+        S.oblige("O8.freed_offset_is_the_discarded_batchs", eq(off, SInt(OFF((G["pos"] - 1).t))), kind="pre")
+        G["n_freed"] = G["n_freed"] + 1
+        if S.choose(2) == 1:
+            raise_(ValueError, "No allocation at offset")  # a peer that lies about its offsets must not break the drain
+
+    H["Segment.free"] = free
+    S.invariants[("_drain_stream", 0)] = lambda L: [("every_pointer_batch_discarded_so_far_was_freed", And(G["n_freed"] == G["n_ptr"], G["pos"] >= 0, G["pos"] <= n))] + ([] if with_seg else [("without_a_segment_nothing_is_looked_at", G["n_freed"] == 0)])
+    S.loop_ghost[("_drain_stream", 0)] = ["pos", "n_ptr", "n_freed"]
+    out = S.outcome(wire._drain_stream, SObj(None, kind="Reader"), *([seg] if with_seg else []))
+    S.oblige("O8.drain_returns_at_the_end_of_the_stream", out.returned and eq(G["pos"], n), kind="post")
+    if with_seg:
+        S.oblige("O8.every_discarded_pointer_batch_was_freed", G["n_freed"] == G["n_ptr"], kind="post")
+    else:
+        S.oblige("O8.nothing_is_freed_without_a_segment", eq(G["n_freed"], 0), kind="post")
+    S.canary("O8.canary.never_frees", eq(G["n_freed"], 0) if with_seg else False)
+
+
+
+@unit("C29.O3b _serve_stream hands the call's segment to every drain of client input, also after an init fault", targets=["vgi_rpc/rpc/_server.py::RpcServer._serve_stream"], min_obligations=10, max_paths=30000)
+def serve_stream_drains(S):
+    from lib_dispatch import run_serve_stream
+
+    seg = SObj(None, kind="Segment")
+    S.ghost["__call_shm__"] = seg
+    c = run_serve_stream(S, writes_may_fail=False)
+    drains = S.events("drained")
+    for e in drains:
+        S.oblige("O3b.every_drain_of_client_input_gets_the_calls_segment", len(e) > 1 and e[1] is seg, kind="trace", witness=c["result_mode"])
+    S.canary("O3b.canary.never_drains", SBool(z3.BoolVal(not drains)))
